@@ -5,8 +5,8 @@ CONSTANTS
   Editable = {"a"}
   Deletable = {"m", "o1"}
   Targets <- NodeTargets
-  MaxSteps = 6
-  MaxBuilds = 3
+  MaxSteps = 7
+  MaxBuilds = 4
   MaxEdits = 3
   MaxSwitch = 0
   WithDB = {TRUE}
